@@ -193,7 +193,7 @@ def glue(n, m1, m2, m3):  # registered below, once per document size
 
 
 for _n, _tier, _T in ((1, "quick", 60), (2, "quick", 240), (3, "thorough", 1800)):
-    ob("C16", "P1.openapi_glue.n%d" % _n, {"n": R(_n, _n), "m1": R(1, 7), "m2": R(1, 7) if _n > 1 else R(1, 1), "m3": R(1, 7) if _n > 2 else R(1, 1)},
+    ob("C16", "P1.openapi_glue.n%d" % _n, {"n": R(_n, _n), "m1": R(1, 7), "m2": R(1, 7) if _n > 1 else R(1, 1), "m3": R(1, 7) if _n > 2 else R(1, 1)}, enum=True,
        tier=_tier, T=_T, funcs=["cdd.compound.openapi.emit.openapi", KERNEL],
        bound="cdd.compound.openapi.emit.openapi on %d model(s) with concrete names %r, every combination of non-empty CRUD subsets; real dicts; json.dumps round trip" % (_n, NAMES[:_n]))(glue)
 
@@ -288,7 +288,7 @@ for _multi in (0, 1):
     for _strpk in (0, 1):
         _quick = not _multi and not _strpk
         ob("C16", "P2.bulk_roundtrip.%s.%s" % ("multi" if _multi else "single", "strpk" if _strpk else "intpk"),
-           {"m": R(1, 7), "t": R(0, 5 if _quick else len(TAILS) - 1), "multi": R(_multi, _multi), "strpk": R(_strpk, _strpk), "order": R(0, 0)}, tier="quick" if _quick else "thorough",
+           {"m": R(1, 7), "t": R(0, 5 if _quick else len(TAILS) - 1), "multi": R(_multi, _multi), "strpk": R(_strpk, _strpk), "order": R(0, 0)}, enum=True, tier="quick" if _quick else "thorough",
            T=900, tpath=120,
            funcs=["cdd.compound.openapi.gen_routes.gen_routes", "cdd.compound.openapi.gen_routes.upsert_routes", "cdd.compound.openapi.gen_openapi.openapi_bulk",
                   "cdd.routes.emit.bottle.create", "cdd.routes.emit.bottle.read", "cdd.routes.emit.bottle.destroy", "cdd.routes.parse.bottle.bottle",
@@ -298,6 +298,51 @@ for _multi in (0, 1):
                  % ("Blog_Pos" if _multi else "Con", TAILS[:6] if _quick else TAILS, "str" if _strpk else "int"))(bulk_roundtrip)
 
 
-ob("C16", "P2.bulk_roundtrip.crud_order", {"m": R(3, 7), "t": R(0, 0), "multi": R(0, 0), "strpk": R(0, 0), "order": R(0, 4)}, pre="m != 4", T=900, tpath=120,
+ob("C16", "P2.bulk_roundtrip.crud_order", {"m": R(3, 7), "t": R(0, 0), "multi": R(0, 0), "strpk": R(0, 0), "order": R(0, 4)}, enum=True, pre="m != 4", T=900, tpath=120,
    funcs=["cdd.compound.openapi.gen_routes.gen_routes", "cdd.compound.openapi.gen_openapi.openapi_bulk"],
    bound="model Cong, every CRUD subset of >= 2 letters with its letters in 5 different orders (solver-enumerated), through gen_routes -> routes file -> openapi_bulk")(bulk_roundtrip)
+
+
+# P3: HISTORY of two upserts into one routes file: the document describes the union of what the file was asked to hold ------------------------------------
+def bulk_upsert_history(m1, m2, strpk):
+    import cdd.sqlalchemy.emit  # noqa: F401  (import order: see C18 in DESIGN.md)
+    from cdd.compound.openapi.gen_openapi import openapi_bulk
+    from cdd.compound.openapi.gen_routes import gen_routes, upsert_routes
+
+    name, pk = "Cong", ("dataset_name" if strpk else "id")
+    _N[0] += 1
+    d = os.path.join(_ROOT, "h%d" % _N[0])
+    os.mkdir(d)
+    try:
+        model_path, routes_path = os.path.join(d, "models.py"), os.path.join(d, "routes.py")
+        with open(model_path, "wt") as f:
+            f.write(MODEL_SRC % {"name": name, "pk": pk, "table": name.lower() + "_tbl", "pktype": "String" if strpk else "Integer"})
+        route = "/api/" + name.lower()
+        for m in (m1, m2):
+            routes, primary_key = gen_routes(app="rest_api", model_path=model_path, model_name=name, crud=crud_of(m), route=route)
+            upsert_routes(app="rest_api", routes=list(routes), routes_path=routes_path, route=route, primary_key=primary_key)
+        with open(routes_path, "rt") as f:
+            text = f.read()
+        doc = openapi_bulk(app_name="rest_api", model_paths=(model_path,), routes_paths=(routes_path,))
+    finally:
+        shutil.rmtree(d, ignore_errors=True)
+    import ast as _ast
+
+    try:
+        mod = _ast.parse(text)
+    except SyntaxError as e:
+        return "the routes file is not valid Python after the second upsert: %s" % e
+    handlers = [n for n in mod.body if isinstance(n, _ast.FunctionDef)]
+    undecorated = [n.name for n in handlers if not n.decorator_list and n.name in ("create", "read", "destroy")]
+    if undecorated:
+        return "route handler(s) %r lost their decorator in the routes file" % (undecorated,)
+    dd = closed(doc["components"], doc["paths"])
+    if dd:
+        return dd
+    return ops_match(doc["paths"], route, pk, m1 | m2, item_always=False)
+
+
+ob("C16", "P3.bulk_upsert_history", {"m1": R(1, 7), "m2": R(1, 7), "strpk": BOOL}, enum=True, T=1500, tpath=120,
+   funcs=["cdd.compound.openapi.gen_routes.gen_routes", "cdd.compound.openapi.gen_routes.upsert_routes", "cdd.compound.openapi.gen_openapi.openapi_bulk"],
+   bound="history: one routes file receives the routes of CRUD subset m1 and then of CRUD subset m2 (every pair of non-empty subsets, int or str primary key; solver-enumerated): the file is "
+         "valid Python, every handler keeps its decorator, and the OpenAPI document built from it has exactly the operations of m1 | m2, closed $refs, the template parameter declared")(bulk_upsert_history)
